@@ -45,14 +45,31 @@ def impl(head, last, changes, step, mode, palette='count'):
         inner = get
         get = lambda level: (inner(level), level % 3)
         eq = lambda a, b: a[0] == b[0]
+    # the verbosity of the library's logger is the host application's choice and no input of the search: every other search runs at DEBUG
+    import logging
+    lg = logging.getLogger('pytezos')
+    old_level, old_handlers, old_prop = lg.level, lg.handlers[:], lg.propagate
+    if (head + len(cs) + step) % 2 == 0:
+        lg.setLevel(logging.DEBUG)
+        lg.handlers[:] = [logging.NullHandler()]       # the records are produced (and their arguments evaluated), just not printed
+        lg.propagate = False
+    try:
+        return _search(search, head, last, get, eq, step, mode), probes
+    finally:
+        lg.setLevel(old_level)
+        lg.handlers[:] = old_handlers
+        lg.propagate = old_prop
+
+
+def _search(search, head, last, get, eq, step, mode):
     try:
         if mode == 'all':
             out = [tuple(x) for x in search.find_state_changes(head, last, get, eq, step=step)]
         else:
             out = [tuple(search.find_state_change(head, last, get, eq, pred_value=get(last)))]
     except Exception as e:   # noqa
-        return ('raised', type(e).__name__, str(e)[:80]), probes
-    return out, probes
+        return ('raised', type(e).__name__, str(e)[:80])
+    return out
 
 
 def compare(ctx, head, last, changes, step, mode, model_out, sig='C29:replay', palette='count'):
